@@ -291,7 +291,7 @@ Lemma pad3_rev_segs segs l0 l1 l2 :
 Proof.
   intros Hlen Hok E. unfold rev_segs, rev_lens.
   destruct segs as [|x [|y [|z [|w r]]]]; cbn [length] in Hlen; try lia;
-    cbn [map rev app pad3 seg_len s_hops] in *; unfold seg_len in *; rewrite ?rev_length;
+    unfold seg_len in *; cbn [map rev app pad3 s_hops] in *; rewrite ?rev_length;
     injection E as <- <- <-.
   - reflexivity.
   - assert (Hy : 1 <= seg_len y <= 63) by (inversion Hok as [|? ? _ Hok']; inversion Hok' as [|? ? Hy' _]; apply Hy').
@@ -331,7 +331,7 @@ Proof.
     rewrite (pad3_rev_segs _ _ _ _ Hlen Hok Epad) in Epad2.
     rewrite (view_try_reverse_assembled _ _ _ _ _ _ _ _ k0 k1 k2 Hm Hs Epad2 Hl0); try lia.
     rewrite Hrc, Hsum. f_equal. f_equal.
-    + rewrite infos_of_rev_segs, map_rev. f_equal. symmetry. apply map_toggle_enc_info.
+    + rewrite infos_of_rev_segs, map_rev. f_equal. apply map_toggle_enc_info.
       apply infos_of_typed. exact Hok.
     + now rewrite hops_of_rev_segs, map_rev.
 Qed.
